@@ -3,7 +3,7 @@ import json
 from .. import core
 from ..suites import numeric
 
-COQ_TARGETS = ["Properties/C02.vo", "Exec/DefRun.vo"]
+COQ_TARGETS = ["Properties/C02.vo", "Exec/DefRun.vo", "Exec/SelectRun.vo"]
 PROP_MODULES = ["Properties.C02"]
 HEADER = ("From Yata Require Import Base.Prelude Base.Num Base.NumF64 Core.Window Core.Candle Methods.Basic "
           "Spec.Hist Spec.MethodDefs Exec.MethodRun Exec.DefRun.\nFrom Coq Require Import Floats.\n"
@@ -34,6 +34,11 @@ def run(ctx):
     cases += numeric.gen_other(ctx.rng, ctx.tier, ["VWMA", "Conv", "ADI"])
     ctx.run_suite("windowed-methods", cases, HEADER, per_shard=12,
                   theorem="Properties/C02.v (windowed_correct for " + ", ".join(PROVED) + ")")
+    # MedianAbsDev (mean absolute deviation from the moving median): the same cases as C04's, here for its formula
+    from ..suites import select
+    from . import c04
+    mcases = [c for c in select.gen_select(ctx.rng.fork("medad"), ctx.tier) if c.entry == "MedianAbsDev"]
+    ctx.run_suite("median-abs-dev", mcases, c04.HEADER, per_shard=8, theorem="Properties/C04.v (C04_median_abs_dev)")
     if ctx.tier == "thorough":
         ctx.run_suite("windowed-methods-release", cases, HEADER, profile="release", model=False)
     ctx.extra["methods_with_coq_theorem"] = PROVED
